@@ -17,7 +17,7 @@ AlphaFirst == { B("a1"), B("h0"), B("a12"), B("a123"), B("ab12c"), B("abcdefg1")
 Words  == { B("und"), B("UND"), B("true"), B("root"), B("u"), B("t"), B("x"), B("U"), B("z") }
 Odd    == { B("e."), B("en*"), B("e n"), <<101, 0>>, <<128, 128>>, <<195, 129, 195, 129>>,
             <<255>>, B("en.US"), B("1.ab"), B("@@"), B("[["), B("``"), B("{{"), B("//"),
-            B("::"), B("$"), B("en "), <<32, 101, 110>>, <<101, 110, 10>>, <<9, 85, 83>> }
+            B("::"), B("$"), B("en "), <<32, 101, 110>>, <<101, 110, 10>>, <<9, 85, 83>>, B("US,"), B("abcde^") }
 
 (* language-identifier models: everything                                  *)
 TokensLI == Lowers \cup Uppers \cup Mixed \cup Digits \cup DigitFirst \cup AlphaFirst
@@ -30,7 +30,7 @@ TokensLISmall == { B("en"), B("und"), B("abcde"), B("Latn"), B("US"), B("419"), 
 (* locale models: the extension vocabulary                                  *)
 TokensLoc == { B(""), B("en"), B("und"), B("Latn"), B("US"), B("valencia"), B("1abc"),
                B("u"), B("t"), B("x"), B("a"), B("U"), B("foo"), B("bar"), B("true"), B("ca"),
-               B("hc"), B("h0"), B("k0"), B("1a"), B("toolongxx"), B("$"), B("a1b"), B("12"), B("True"), B("zz"), B("fo.o"), B("ab+") }
+               B("hc"), B("h0"), B("k0"), B("1a"), B("toolongxx"), B("$"), B("a1b"), B("12"), B("True"), B("zz"), B("fo.o"), B("ab+"), B("foo,") }
 
 (* deep enumeration: the bare minimum to build every extension shape        *)
 TokensLocTiny == { B("en"), B("u"), B("t"), B("x"), B("foo"), B("ca"), B("h0") }
